@@ -146,7 +146,7 @@ func checkBranchNodeWithOrConstraint(schemaNode ischema.Node, jsonNode ischema.B
 	}
 
 	for _, n := range c.Names() {
-		if n[0] == '@' {
+		if len(n) != 0 && n[0] == '@' {
 			hasUserTypeInOr = true
 			break
 		}
